@@ -2,7 +2,9 @@
  * that the supervisor classifies them; leak checks are explicit calls only. */
 __attribute__((used, visibility("default"))) const char *__asan_default_options(void) {
   return "exitcode=77:detect_leaks=1:abort_on_error=0:allocator_may_return_null=1:"
-         "detect_stack_use_after_return=0:handle_abort=1:print_summary=1:max_malloc_fill_size=65536";
+         "detect_stack_use_after_return=0:handle_abort=1:print_summary=1:max_malloc_fill_size=65536:"
+         /* the supervisor forks every child: keep its resident set (and so the cost of fork) small */
+         "quarantine_size_mb=24";
 }
 __attribute__((used, visibility("default"))) const char *__lsan_default_options(void) {
   return "leak_check_at_exit=0:print_suppressions=0:report_objects=0";
